@@ -166,6 +166,28 @@ def gen_case(rng, fmt=None):
     return case
 
 
+def directed_cases(rng):
+    """in every run whatever the seed: v2 files with two spectral windows, the second centre frequency below and above
+    the first; v2 / v3 files opened with keepdims=True and read with numpy integer scalars as second-stage indices"""
+    out = []
+    for second in (-100e6, 100e6):
+        c = gen_case(rng, 'v2')
+        c.pop('lost', None)
+        c['T'] = max(c['T'], 4)
+        c.update(cf2=dict(first=1900e6, second=1900e6 + second, at=rng.randint(1, c['T'] - 1)), dup=False)
+        out.append(c)
+    for fmt in ('v2', 'v2', 'v3'):
+        for _ in range(40):
+            c = gen_case(rng, fmt)
+            if not c.get('cf2') and not c.get('lost'):
+                break
+        c.update(keepdims=True, np_ints=True)
+        while len(c['ops']) < 4:
+            c['ops'].append(dict(select=dict(kw={}, reset=None), ix_seed=rng.randrange(2 ** 31), snapshot=False))
+        out.append(c)
+    return out
+
+
 def to_kwargs(sel, d, tr):
     kw = {}
     B = len(tr.corrprods)
@@ -437,7 +459,8 @@ def drive(ctx, case, d, tr):
         sels_src = ixgen.parse_sels(rep)       # source coordinates per axis
         k2py = tuple(ixgen.to_py(ix, as_array=rng.random() < 0.5) for ix in k2)
         # integer indices also arrive as numpy integer scalars (np.argmax, iterating over d.dumps, ...)
-        k2py = tuple(np.int64(v) if (isinstance(v, int) and not isinstance(v, bool) and rng.random() < 0.4) else v
+        k2py = tuple(np.int64(v) if (isinstance(v, int) and not isinstance(v, bool)
+                                     and (rng.random() < 0.4 or case.get('np_ints'))) else v
                      for v in k2py)
         if len(k2py) == 1 and rng.random() < 0.5:
             k2py = k2py[0]
@@ -604,7 +627,7 @@ def corpus():
 def run(ctx):
     ctx.matchers.update(MATCHERS)
     build_info = common.build_and_audit('C01', ctx.tier)
-    cases = corpus() + [gen_case(ctx.rng) for _ in range(ctx.q(90, 2500))]
+    cases = corpus() + directed_cases(ctx.rng) + [gen_case(ctx.rng) for _ in range(ctx.q(90, 2500))]
     bad = evaluate(ctx, cases)
     for c, v in bad:
         ctx.violation(c, v)
